@@ -222,7 +222,12 @@ Definition check_listen (a l : bytes) (o : ob) : list nat :=
                 | None => false
                 | Some p =>
                     if is_nil l then bytes_eqb r (c_colon :: p)
-                    else if has_byte c_colon l then bytes_eqb r l
+                    else if has_byte c_colon l
+                    then bytes_eqb r l &&
+                         match split_host_port l with
+                         | Ok (hl, pl) => negb (is_nil hl) && negb (is_nil pl)
+                         | _ => false
+                         end
                     else bytes_eqb r (l ++ c_colon :: p)
                 end)
   end.
